@@ -23,6 +23,10 @@ def main():
             tech = 'contract-based deductive verification: Verus contracts on functions extracted from /repo'
             if sp.get('kani'):
                 tech += ' + loop-free Kani harnesses over the full bit domain'
+            rp = sp.get('replay')
+            keys = sorted((set(rp.values()) if isinstance(rp, dict) else set([rp] if rp else [])) | set(sp.get('bounded_extra', [])))
+            if keys:
+                tech += '; the functions of the property that the verifier cannot process (listed under Not covered) have labelled BOUNDED checks on the real code (enumerators %s; bounds in evidence.coverage.bounded_checks), never counted as proved' % ', '.join(keys)
             checks.append({
                 'property_id': pid,
                 'quick_cmd': './check %s --tier quick' % pid,
